@@ -6,7 +6,7 @@
    lookup is a function of the state that returns no state (it cannot modify the e-graph).
    NOT PROVED: equivariance of insertion under renaming and that a term equal to a represented one
    through unions of subterms is found; decided per run by probes against implementation and model. *)
-From SE Require Import EGraph.Model EGraph.ModelMachine EGraph.ModelFacts EGraph.Model9.
+From SE Require Import EGraph.Model EGraph.ModelMachine EGraph.ModelFacts EGraph.Model9 EGraph.UnionFindFacts EGraph.InvariantFacts.
 
 Theorem C09_known_node : forall s n a, eg_lookup s n = Ok (Some a) -> eg_add n s = Ok (a, s).
 Proof. exact eg_add_known. Qed.
@@ -28,3 +28,28 @@ Print Assumptions C09_unknown_allocates_one.
 Theorem C09_lookup_is_a_function_of_the_state : forall s n r1 r2, eg_lookup s n = r1 -> eg_lookup s n = r2 -> r1 = r2.
 Proof. intros; congruence. Qed.
 Print Assumptions C09_lookup_is_a_function_of_the_state.
+
+(* LOOKUP AFTER ADD (EGraph/InvariantFacts.v).  On every state reached by insertions only ("flat": all groups
+   trivial, no redundancy, nothing pending — preserved by eg_add and add_expr through the rebuild that
+   mk_singleton_class runs), for every node whose child invocations cover their classes' slots and that mentions
+   no slot name at or above the fresh counter: after eg_add, lookup finds EXACTLY the returned invocation, and
+   adding the node again returns it and leaves the state unchanged.  Both side conditions are necessary
+   (InvariantFacts.v: ix_missing_lookup_fails, ix_capture_lookup_fails).  The extension to states with unions is
+   not proved (three obligations on move_to / gadd_set / shrink_slots, listed in InvariantFacts.v section 14). *)
+Theorem C09_lookup_after_add : forall s n a s', flat s -> node_ok s n -> eg_add n s = Ok (a, s') ->
+  eg_lookup s' n = Ok (Some a) /\ eg_add n s' = Ok (a, s').
+Proof. exact lookup_after_add. Qed.
+Print Assumptions C09_lookup_after_add.
+
+Theorem C09_insertion_keeps_flat : forall t s a s', flat s -> add_expr t s = Ok (a, s') -> flat s'.
+Proof. exact flat_add_expr. Qed.
+Print Assumptions C09_insertion_keeps_flat.
+
+(* insertion does not disturb what is already there: canonicalisation, equality and shapes over existing ids *)
+Theorem C09_allocation_frame : forall sl syn s i s', uf_ok s -> eg_wf s -> alloc_eclass sl syn s = Ok (i, s') ->
+  (forall a, (N.to_nat (aid a) < List.length (unionfind s))%nat -> find_applied_id s' a = find_applied_id s a) /\
+  (forall a b, (N.to_nat (aid a) < List.length (unionfind s))%nat -> (N.to_nat (aid b) < List.length (unionfind s))%nat ->
+     eg_eq s' a b = eg_eq s a b) /\
+  (forall n, List.Forall (fun a => (N.to_nat (aid a) < List.length (unionfind s))%nat) (app_occ n) -> shape s' n = shape s n).
+Proof. exact alloc_eclass_frame. Qed.
+Print Assumptions C09_allocation_frame.
